@@ -241,6 +241,14 @@ func (b *Buffer) Read(packet []byte) (n int, err error) { //nolint:gocognit,cycl
 			}
 
 			b.count--
+			if b.head != b.tail && !b.closed {
+				// more packets remain: pass the wake-up on, another reader may
+				// be waiting for the token this one has just consumed.
+				select {
+				case b.notify <- struct{}{}:
+				default:
+				}
+			}
 			b.mutex.Unlock()
 
 			if copied < count {
